@@ -1143,6 +1143,10 @@ class _MSWorld:
                 F, B = world.ops(self.level)
                 return hp.Field(B @ (np.asarray(self.mask) * (F @ np.asarray(field))), self.grid)
 
+            def backward(self, field):      # the adjoint filter: same transforms, conjugated transfer function
+                F, B = world.ops(self.level)
+                return hp.Field(B @ (np.asarray(self.mask).conj() * (F @ np.asarray(field))), self.grid)
+
         class Prop:
             def __init__(self, input_grid, focal_grid):
                 self.pg, self.fg, self.level = input_grid, focal_grid, world.level_of(focal_grid)
@@ -1223,6 +1227,17 @@ def run_msalg_case(case):
             if not np.array_equal(np.asarray(wf.electric_field), E):
                 bad.append(('multiscale input-modified', 'forward changed its input'))
         masks = [np.asarray(m).copy() for m in c.focal_masks]
+        # backward through the same object
+        Y = rng.integers(-8, 9, n) / 4.0 + 1j * rng.integers(-8, 9, n) / 4.0
+        outsb = []
+        for wl in case['wavelengths']:
+            wf = hp.Wavefront(hp.Field(Y.copy(), pg), wl)
+            o = c.backward(wf)
+            outsb.append(np.asarray(o.electric_field).copy())
+            if o.wavelength != wl or wf.wavelength != wl:
+                bad.append(('multiscale wavelength-bookkeeping', 'backward at wavelength %g returned wavelength %r and left the input at %r' % (wl, o.wavelength, wf.wavelength)))
+            if not np.array_equal(np.asarray(wf.electric_field), Y):
+                bad.append(('multiscale input-modified', 'backward changed its input'))
     except Exception as e:  # noqa
         for k2, v in saved.items():
             setattr(ms, k2, v)
@@ -1236,6 +1251,8 @@ def run_msalg_case(case):
         bad.append(('multiscale chromatic-propagator-call', 'a propagator was called at wavelength %r (must be 1 after rescaling)' % sorted(set(world.wavelengths))[:3]))
     if np.abs(outs[0] - outs[1]).max() > 0:
         bad.append(('multiscale chromatic', 'the output field depends on the wavelength (max difference %.3g)' % np.abs(outs[0] - outs[1]).max()))
+    if np.abs(outsb[0] - outsb[1]).max() > 0:
+        bad.append(('multiscale chromatic', 'the output field of backward depends on the wavelength (max difference %.3g)' % np.abs(outsb[0] - outsb[1]).max()))
     # brute-force statement of the design on the same operators
     ds = [g.size for g in grids]
     wins, raws, Ms = [], [], []
@@ -1267,6 +1284,11 @@ def run_msalg_case(case):
             break
     if np.abs(outs[0] - want).max() > TOL * scale:
         bad.append(('multiscale forward-sum', 'forward differs from stop * sum_i B_i(M_i * F_i E) by %.3g' % np.abs(outs[0] - want).max()))
+    ys = Y if stop is None else Y * stop.conj()
+    wantb = sum(world.ops(i)[1] @ (Ms[i].conj() * (world.ops(i)[0] @ ys)) for i in range(L))
+    scale = max(scale, float(np.abs(wantb).max()))
+    if np.abs(outsb[0] - wantb).max() > TOL * scale:
+        bad.append(('multiscale backward-sum', 'backward differs from sum_i B_i(conj(M_i) * F_i (conj(stop) y)) by %.3g' % np.abs(outsb[0] - wantb).max()))
     # the model request: all levels embedded as blocks of one index set
     D = sum(ds)
     off = np.concatenate([[0], np.cumsum(ds)])
@@ -1282,7 +1304,7 @@ def run_msalg_case(case):
 
     def cmx(M):
         return rat_lists(M.real) + ' ' + rat_lists(M.imag)
-    toks = ['C09 msalg %d %d' % (n, D), '- -' if stop is None else cl(stop), cl(E), str(L)]
+    toks = ['%d %d' % (n, D), '- -' if stop is None else cl(stop), '@FIELD@', str(L)]
     for i in range(L):
         Fi, Bi = world.ops(i)
         Fe = np.zeros((D, n), dtype=complex)
@@ -1294,7 +1316,9 @@ def run_msalg_case(case):
             Re = np.zeros((D, D), dtype=complex)
             Re[off[i]:off[i + 1], off[j]:off[j + 1]] = world.R[(j, i)]
             toks.append(cmx(Re))
-    return {'line': ' '.join(toks), 'out': outs[0], 'masks': masks, 'off': off, 'scale': scale, 'L': L, 'D': D}, bad
+    body = ' '.join(toks)
+    return {'line': 'C09 msalg ' + body.replace('@FIELD@', cl(E)), 'line_b': 'C09 msalgb ' + body.replace('@FIELD@', cl(Y)),
+            'out': outs[0], 'out_b': outsb[0], 'masks': masks, 'off': off, 'scale': scale, 'L': L, 'D': D}, bad
 
 
 def gen_mstele(rng):
@@ -1335,6 +1359,42 @@ def gen_mstele(rng):
     return line, B @ (m * (F @ E)), broken
 
 
+def gen_msteleb(rng):
+    """`multiscale_backward_telescopes` at the Gaussian rationals: complex mask and operators, real windows
+    (sometimes one complex window sample: the hypothesis `windowsReal` then fails)."""
+    d, n, L = int(rng.integers(3, 9)), int(rng.integers(1, 4)), int(rng.integers(1, 4))
+    lo, hi = 0, d
+    supports = []
+    for i in range(L):
+        supports.append((lo, hi))
+        if hi - lo > 2:
+            lo, hi = lo + int(rng.integers(0, 2)), hi - int(rng.integers(0, 2))
+    cplx_window = bool(rng.random() < 0.2 and L > 1)
+    sps = []
+    for i in range(L):
+        S = np.zeros(d)
+        S[supports[i][0]:supports[i][1]] = 1
+        w = np.zeros(d, dtype=complex)
+        if i + 1 < L:
+            a, b = supports[i + 1]
+            w[a:b] = rng.integers(0, 9, b - a) / 8.0
+            if cplx_window and i == 0:
+                w[a] = w[a] + 0.5j
+        sps.append((S, w))
+
+    def cv(k):
+        return rng.integers(-4, 5, k) / 2.0 + 1j * rng.integers(-4, 5, k) / 2.0
+    m, y = cv(d), cv(n)
+    F = cv(d * n).reshape(d, n)
+    B = cv(n * d).reshape(n, d)
+
+    def cl(a):
+        return rat_list(np.asarray(a).real) + ' ' + rat_list(np.asarray(a).imag)
+    line = 'C09 msteleb %d %d %s %s %s %s %s %d %s %s' % (n, d, cl(m), rat_lists(F.real), rat_lists(F.imag), rat_lists(B.real), rat_lists(B.imag), L,
+                                                       ' '.join('%s %s' % (rat_list(S), cl(w)) for S, w in sps), cl(y))
+    return line, B @ (m.conj() * (F @ y)), cplx_window
+
+
 def part_f(ctx):
     cases = [gen_msalg_case(ctx.rng, k) for k in range(ctx.scale(16, 60))]
     lines, plan = [], []
@@ -1350,7 +1410,11 @@ def part_f(ctx):
             plan.append((case, obs, len(lines)))
             lines.append(obs['line'])
     tele = [gen_mstele(ctx.rng) for _ in range(ctx.scale(60, 400))]
-    out = ctx.model(lines + [t[0] for t in tele])
+    teleb = [gen_msteleb(ctx.rng) for _ in range(ctx.scale(40, 300))]
+    out = ctx.model(lines + [t[0] for t in tele] + [t[0] for t in teleb] + [obs['line_b'] for _, obs, _ in plan])
+    out_b = out[len(lines) + len(tele) + len(teleb):]
+    out_tb = out[len(lines) + len(tele):len(lines) + len(tele) + len(teleb)]
+    out = out[:len(lines) + len(tele)]
     for case, obs, k in plan:
         toks = out[k].split()
         short = {k2: case[k2] for k2 in ('N', 'w', 's', 'q', 'kind', 'stop', 'seed')}
@@ -1370,6 +1434,29 @@ def part_f(ctx):
             if np.abs(Mi - obs['masks'][i]).max() > TOL * max(1.0, float(np.abs(Mi).max())):
                 ctx.disagree('C09 msMasks', {'case': short, 'level': i, 'max_abs_diff': float(np.abs(Mi - obs['masks'][i]).max())})
                 break
+    for (case, obs, k), resp in zip(plan, out_b):
+        toks = resp.split()
+        if toks[0] != 'ok':
+            raise MachineryError('model refused msalgb: %s' % resp[:80])
+        ctx.traces_validated += 1
+        ref = np.array([float(v) for v in parse_rat_list(toks[1])]) + 1j * np.array([float(v) for v in parse_rat_list(toks[2])])
+        if np.abs(ref - obs['out_b']).max() > TOL * obs['scale']:
+            ctx.disagree('C09 msBackward', {'case': {k2: case[k2] for k2 in ('N', 'w', 's', 'q', 'kind', 'stop', 'seed')},
+                                            'max_abs_diff': float(np.abs(ref - obs['out_b']).max())})
+    for (line, want, cplx_window), resp in zip(teleb, out_tb):
+        toks = resp.split()
+        if toks[0] != 'ok':
+            raise MachineryError('model refused msteleb: %s' % resp[:80])
+        m = dict(t.split('=') for t in toks[1:4])
+        ctx.traces_validated += 1
+        ctx.count('F:teleb:nested=%s,real=%s' % (m['nested'], m['real']))
+        lhs = np.array([float(v) for v in parse_rat_list(toks[4])]) + 1j * np.array([float(v) for v in parse_rat_list(toks[5])])
+        if m['nested'] != '1' or (m['real'] == '1') == cplx_window:
+            ctx.disagree('C09 backward telescoping', {'what': 'hypotheses: model nested=%s real=%s, generator complex window=%s' % (m['nested'], m['real'], cplx_window), 'line': line[:200]})
+        elif m['real'] == '1' and (m['equal'] != '1' or np.abs(lhs - want).max() > TOL * max(1.0, np.abs(want).max())):
+            ctx.disagree('C09 backward telescoping', {'line': line[:200], 'model': resp[:200]})
+        elif m['real'] != '1':
+            ctx.count('F:teleb:complex-window-' + ('unequal' if m['equal'] == '0' else 'equal'))
     for (line, want, broken), resp in zip(tele, out[len(lines):]):
         toks = resp.split()
         if toks[0] != 'ok':
